@@ -135,7 +135,7 @@ void realCase(size_t idx) {
 	if (any) { checkReload(nif, what, "UpdateSkinPartitions"); R_cover("real/" + smp.name); }
 }
 
-size_t nApi() { return g_cfg.tier ? 24000 : 360; }
+size_t nApi() { return g_cfg.tier ? 24000 : 2400; }
 
 void run(size_t idx) {
 	if (idx < realSamples().size()) realCase(idx);
